@@ -120,6 +120,17 @@ def rule_len_saturating(ctx, crate, rule="R-LEN-SATURATING"):
             ok = len(arith) == 1 and K.meth(arith[0][1].path) == want and not plain
             ctx.check(ok, rule, "%s:%s" % (K.meth(fn), want), b.name, "%s:%d" % (b.file, s.get("line", 0)),
                       "new length = old.%s(delta)" % want, "length arithmetic is not a single %s (found %s)" % (want, [K.meth(c.path) for _, c in arith] or "plain operators"), cfg)
+            # "length() follows ... inc_length/dec_length": an unknown length stays unknown. The store happens only where the old
+            # length is Some (an `if let Some(len)` / `match`, or `Option::map`); a default for the unknown case (`unwrap_or_default()`)
+            # invents a length - fraction() jumps to 1.0 for a bar that never had one, finish() moves the position to it (seed C07n)
+            defaulted = sl.calls_matching(r"std::option::Option::<T>::(unwrap_or|unwrap_or_default|unwrap_or_else)")
+            in_some = any(vs == {"Some"} and i in reg and [f for f in place_fields(pl) if f[2] == "len"]
+                          for vs, reg, sb_, pl in K.variant_regions(b, crate, "std::option::Option"))
+            via_map = sl.has_call(r"std::option::Option::<T>::(map|and_then)") or via_closure
+            ctx.check(not defaulted and (in_some or via_map), rule, "%s:unknown-stays-unknown" % K.meth(fn), b.name, "%s:%d" % (b.file, s.get("line", 0)),
+                      "the length is changed only when it is known",
+                      "%s stores a length also when the old length is unknown (a default stands in for it): length() turns from None into Some(..), fraction() "
+                      "and finish() follow the invented length" % K.meth(fn), cfg)
             if arith:
                 ab, ac = arith[0]
                 a0 = ab.slice_args(ac, [0])
